@@ -297,12 +297,17 @@ def case_thread_playing_iteration(props, i):
         if disclose:
             inbox.append(f'{NAMES[pv]} ready for dummy')
             from_main.append("Dummy's cards : <dummy hand>")
+        if i == 0:
+            from_main.insert(0, NAMES[av])       # the main thread announces the leader when a trick starts
         th, w, to_main, fm = _thread(eng, z3.IntVal(pv), inbox, from_main)
-        loop = loopcut.find_for(PlayerThread._playing_phase, 'i', 'range(4)')
+        # the (trick, position) loop nest, nested or flattened; position 0 starts where the trick starts
+        prefix, body, _form = loopcut.find_nest(PlayerThread._playing_phase, 'trick_num', 'i')
         cex = lambda m: {'kind': 'thread_playing', 'props': sorted(props), 'seat': pv, 'declarer': dv, 'on_turn': av, 'trick': tn, 'i': i}
+        locs = dict(self=th, declarer=Player(dv), dummy=Player(dummy), trick_num=tn, i=i)
+        if i != 0:
+            locs['active_player'] = Player(av)
         try:
-            st, frame = loopcut.run_body(eng, PlayerThread._playing_phase, loop,
-                                         dict(self=th, declarer=Player(dv), dummy=Player(dummy), active_player=Player(av), trick_num=tn, i=i))
+            st, frame = loopcut.run_stmts(eng, PlayerThread._playing_phase, (prefix if i == 0 else []) + body, locs)
         except symx.RaiseEx as e:
             return dict(outcome='raise', cex=cex, checks=[(f'{q}: the seat thread handles a conforming client ({e.exc!r})', False) for q in sorted(props)])
         want = []
